@@ -24,6 +24,15 @@ CHECKS.update({
  "C16": ("exploration", "E1 pipeline in the mock_salts build (worker subprocesses)", "exhaustive enumeration of claim trees x strategies x formats x salt-queue slack in the deterministic-salt build, one case at a time per process (SALTS is process-global)",
    "For every (tree, strategy, format, slack r in {0,1,5}): salts in the output == first k of the queue in order and SALTS keeps exactly the last r; two runs give byte-identical strings (HS256, EdDSA) / identical payload+disclosures (ES256); the full C05 oracle and the issue->present->verify round trip (select all / none, decoys off and on) hold. Quick S(4,3)+alphabets on S(2,2)+chains; thorough S(5,4)+alphabets on S(3,3).",
    "holds for the mock_salts compilation only; salt queues of distinct base64url strings", "4 C16"),
+ "C02": ("fault_enumeration", "E2 tamper", "exhaustive fault enumeration: every single-character substitution/deletion/insertion at every position of the issuer-signed JWT of 36 honest presentations, plus the full structural/algorithm/key catalogue, each verified by the real verifier",
+   "36 honest bases (3 algs x 2 formats x kb off/on x 3 credentials) are built through the real issuer and holder and must verify (control, with the resolver's arguments recorded). Every tampering of the catalogue must be rejected with Err: all single-character edits over a 72-character alphabet, every payload member/digest/element changed, removed or duplicated with the original signature, all proper mixes of two tokens of the same key, signature removed/emptied/truncated to every length, alg rewritten to 17 values with the signature kept/emptied/removed/HMAC-with-the-public-key(PEM,DER,raw)/attacker-signed, 7 other resolver keys, iss confusion over a two-issuer resolver.",
+   "jsonwebtoken/ring/base64 correct; single edits complete, pairs of edits not covered", "4 C02"),
+ "C09": ("exploration", "E2 grid", "exhaustive grid enumeration of exp x nbf x format x key binding x algorithm x construction path against the real verifier",
+   "Full product of 2 credentials x 2 formats x kb off/on x algs x 22 exp values x 9 nbf values, each built through the real issuer+holder and also signed directly by the harness; must-reject points (exp absent/non-numeric/past by >= 300 s, nbf future by >= 300 s) must give Err, in-window points Ok.",
+   "wall clock not virtualised; no assertion within 300 s of a boundary", "4 C09"),
+ "C15": ("exploration", "E1 chains", "exhaustive enumeration of narrowing chains of selections per credential with a differential oracle (narrowed vs direct)",
+   "Every pair D1 >= D2 (and chains of length 3; thorough: 4) of type-consistent selections on every credential of the scope: a holder built from the previous presentation must return the same disclosure multiset and verified claims as selecting directly from the issued SD-JWT. Quick: S(3,3) x {All,Top,every Custom subset} pairs, S(2,2) chains of 3, depth chains; thorough adds S(3,3) chains of 3, S(2,2) chains of 4, S(4,3) pairs.",
+   "presentations without key-binding JWT, as the property states", "4 C15"),
 })
 NOT_YET = {}
 def main():
